@@ -3,7 +3,12 @@
   fold_inline.go, fold_map.go, fold_arr.go, fold_primitives.go, fold_user.go, fold_opts.go,
   fold_map_inline.generated.go, fold_refl_sel.generated.go, tags.go, visitors/expect_obj.go,
   and the adapters array.go / map.go / string.go as far as fold reaches them), as of the
-  tree with the fixes F18, F32, F33.
+  tree with the fixes F18, F32, F33 and the fold fixes of branch `fold-fixes`:
+  IsZero on the pointer receiver (resolveIsZeroerPtr reports the value), IsZero honoured for
+  string / slice / map / array kinds, nil pointer to a value-receiver Folder folds as nil
+  (isNilValueFolder), embeddObjReFold allocates its ExpectObjVisitor per use, the registered
+  fold function decides what an inline field contributes (fieldFoldGenInline), forwarding
+  registry entries make recursive types compile (getReflectFold, buildFieldFoldInline).
 
   Structure of the mirror
   * `reflect` is replaced by the universe of SF.Gotype.Types; a `reflect.Value` is an `RV`
@@ -17,25 +22,26 @@
     an error from its k-th call on; every call — basic or extended — is ONE event).
   * `foldContext.visitor` is either the user's visitor (`VisRef.user`) or
     `EnsureExtVisitor(ExpectObjVisitor)` (`VisRef.exp id`), created by `embeddObjReFold`
-    for inline fields of interface / Folder types.
+    for inline fields of interface / Folder / user-folder types: one fresh visitor per use
+    (`St.vss`, `St.nextVs`), whose target is the visitor of the calling context.
   * Per-iterator type registry (`typeFoldRegistry`): a cache of compiled closures keyed by
-    (type, inline).  Compilation is a function of the type alone and failed compilations
-    are not cached, so the cache cannot change what is compiled.  It is observable in ONE
-    way, which is modelled: closures built by `embeddObjReFold` own a mutable
-    `ExpectObjVisitor`, and because the closure is cached per (type, inline=true) ALL inline
-    fields of that type share this one visitor (`St.vss`, keyed by `VsId`).  Re-entering it
-    (an inline interface field inside the value of another inline interface field) makes
-    the visitor its own target: unbounded recursion (`Res.fatal`, a Go stack overflow) or a
-    nil dereference (`Res.panic`).  Every entry overwrites that state, so nothing survives
-    from one `Fold` call to the next: a reused iterator behaves like a fresh one (op
-    `fold-seq` checks this).
+    (type, inline).  Compilation is a function of the type alone, and a failed compilation
+    leaves nothing behind (failed compilations were never cached; since the F23 fix the
+    entries added during a failed outermost compilation are removed again), so the cache
+    cannot change what is compiled and holds no mutable state: a reused iterator behaves
+    like a fresh one (op `fold-seq` checks this).  The registry is observable in one way,
+    which is modelled: while a type is being compiled it already has an entry, a folder
+    forwarding to the folder under construction.  That is what lets a recursive type
+    compile: the mirror carries the set of types under compilation (`Open`) and compiles a
+    reference to one of them to `ReFold.forward` / `ReFold.forwardInline`, which `run`
+    resolves by compiling the type again (same term, compilation is deterministic).
   * Go map iteration order: the fold takes map entries in the order given by `FoldOpts.order`
     (the events the implementation was observed to deliver: guided replay), falling back to
     the order of the association list.  Comparison with the harness is therefore byte-exact
     for maps of any size.
   * Recursion that is not structural (type terms with `ref`, values, visitor chains) takes
-    fuel; exhausted fuel is `Res.fatal`.  For the compile phase that is the faithful
-    outcome: Go recurses without bound on a cyclic type term (F23).
+    fuel; exhausted fuel is `Res.fatal` (a Go stack overflow).  No type of the universe and
+    no finite value reaches it any more.
   Not modelled: addressability (`CanAddr`; only aliasing depends on it), the `unsafe`
   pointer casts of fold_user.go / fold_map_inline (they reinterpret, never convert),
   options errors of `NewIterator` (`Fold` swallows them).
@@ -73,11 +79,8 @@ structure FoldOpts where
   folders : Bool := true           -- gotype.Folders(foldUF, foldUO, foldUD) installed
   deriving Inhabited
 
-/-- owner of an ExpectObjVisitor: the registry key (type, inline=true) of the closure -/
-inductive VsId
-  | iface                          -- interface{} : getReflectFoldInlineInterface
-  | folder (name : String)         -- a type implementing Folder
-  deriving DecidableEq, Repr, Inhabited
+/-- identity of one ExpectObjVisitor (embeddObjReFold allocates one per use) -/
+abbrev VsId := Nat
 
 /-- foldContext.visitor -/
 inductive VisRef
@@ -96,7 +99,8 @@ structure St where
   n : Nat := 0
   failAt : Option Nat := none
   hint : List XEv := []            -- observed events not yet matched (map order oracle)
-  vss : List (VsId × Vs) := []
+  vss : List (VsId × Vs) := []     -- the ExpectObjVisitors allocated so far
+  nextVs : Nat := 0
   deriving Inhabited
 
 def St.getVs (s : St) (id : VsId) : Vs := (s.vss.lookup id).getD { active := none, depth := 0 }
@@ -213,7 +217,7 @@ def visit : Nat → St → VisRef → XEv → St × Res
       | none =>                                  -- array.go extArrVisitor
         seqM (fun s e => visit fuel s (.exp id) (.ev e)) s x.expand
 
-def visitFuel : Nat := 64
+def visitFuel : Nat := 10000
 
 def emit (s : St) (c : VisRef) (x : XEv) : St × Res := visit visitFuel s c x
 
@@ -357,8 +361,10 @@ inductive ReFold
   | mapInline (p : Option Prim)              -- foldMapInlineX; none = foldMapInlineInterface
   | slice (elem : ReFold)                    -- closure of getReflectFoldSlice
   | ifaceElem                                -- foldInterfaceElem
-  | embedd (id : VsId) (obj : ReFold)        -- embeddObjReFold
+  | embedd (obj : ReFold)                    -- embeddObjReFold
   | inlineIface                              -- closure of getReflectFoldInlineInterface
+  | forward (t : GoType)                     -- getReflectFold: registry entry of a type under compilation
+  | forwardInline (t : GoType)               -- buildFieldFoldInline: the same for the (type, inline) key
   deriving Repr, Inhabited
 
 /-- C.userReg[t] / the entries NewIterator puts into the registry (makeUserFoldFns:
@@ -396,54 +402,71 @@ def isPtrKind (t : GoType) : Bool := match t.under with | .ptr _ => true | _ => 
 def makeResolveNonEmptyValue (st : GoType) : List Resolver :=
   let (n, bt) := baseType st
   (if isPtrKind st then [.pointers n] else []) ++
-  (match bt.under with
-   | .iface => [.interfaceLazy]
-   | .map _ _ | .string | .slice _ | .array _ _ => [.bySize]
-   | _ =>
+  (let isZeroers : List Resolver :=
      if implementsIsZeroer bt then [.isZeroer]
      else if implementsPtrIsZeroer bt then [.isZeroerPtr]
-     else [])
+     else []
+   match bt.under with
+   | .iface => [.interfaceLazy]
+   | .map _ _ | .string | .slice _ | .array _ _ => .bySize :: isZeroers   -- `fallthrough`
+   | _ => isZeroers)
 
 /-- structFoldLen: -1 when any field is (not omitted and) omitempty or inline -/
 def structFoldLen (fs : List Field) (fields : Nat) : Int :=
   if fs.any (fun f => let o := (parseTags f.tag).2; !o.omitF && (o.squash || o.omitEmpty)) then -1 else fields
 
+/-- the registry entries that exist only while a compilation is running: the types (by
+menagerie name — only named types can refer to themselves) whose folder / inline folder is
+under construction and reachable through a forwarding entry -/
+structure Open where
+  norm : List String := []        -- keys (type, inline = false)
+  inl : List String := []         -- keys (type, inline = true)
+  deriving Inhabited
+
+def Open.enter (op : Open) (t : GoType) : Open :=
+  match t.menagerieName? with
+  | some n => { op with norm := n :: op.norm }
+  | none => op
+
 mutual
 /-- getReflectFold.  `c.reg.find(t)` is a cache hit (same result) except for the user
-folders, which NewIterator stores in the registry. -/
-def getReflectFold : Nat → FoldOpts → GoType → Except Res ReFold
-  | 0, _, _ => .error .fatal
-  | fuel + 1, o, t =>
+folders, which NewIterator stores in the registry, and for a type under compilation, whose
+entry forwards to the folder under construction. -/
+def getReflectFold : Nat → FoldOpts → Open → GoType → Except Res ReFold
+  | 0, _, _, _ => .error .fatal
+  | fuel + 1, o, op, t =>
     let t := t.whnf
     match userReg o t with
     | some f => .ok f
     | none =>
+    if (t.menagerieName?.map op.norm.contains).getD false then .ok (.forward t) else
     match getReflectFoldPrimitive t with
     | some f => .ok f
     | none =>
     if implementsFolder t || implementsPtrFolder t then .ok .folderIfc else
+    let op := op.enter t                             -- c.reg.set(t, forwarding folder)
     match t.under with
-    | .ptr _ => getFoldPointer fuel o t
-    | .struct fs => getReflectFoldStruct fuel o fs false
-    | .map _ _ => getReflectFoldMap fuel o t
-    | .slice _ | .array _ _ => getReflectFoldSlice fuel o t
+    | .ptr _ => getFoldPointer fuel o op t
+    | .struct fs => getReflectFoldStruct fuel o op fs false
+    | .map _ _ => getReflectFoldMap fuel o op t
+    | .slice _ | .array _ _ => getReflectFoldSlice fuel o op t
     | .iface => .ok .ifaceElem                       -- getReflectFoldElem
     | _ => getReflectFoldPrimitiveKind t
 
 /-- getFoldPointer -/
-def getFoldPointer : Nat → FoldOpts → GoType → Except Res ReFold
-  | 0, _, _ => .error .fatal
-  | fuel + 1, o, t =>
+def getFoldPointer : Nat → FoldOpts → Open → GoType → Except Res ReFold
+  | 0, _, _, _ => .error .fatal
+  | fuel + 1, o, op, t =>
     let (n, bt) := baseType t
-    match getReflectFold fuel o bt with
+    match getReflectFold fuel o op bt with
     | .error e => .error e
     | .ok elem => .ok (makePointerFold n elem)
 
 /-- getReflectFoldStruct (with getStructFieldsFolds inlined as the `mapM`) -/
-def getReflectFoldStruct : Nat → FoldOpts → List Field → Bool → Except Res ReFold
-  | 0, _, _, _ => .error .fatal
-  | fuel + 1, o, fs, inline =>
-    match fs.zipIdx.mapM (fun (f, i) => buildFieldFold fuel o f i) with
+def getReflectFoldStruct : Nat → FoldOpts → Open → List Field → Bool → Except Res ReFold
+  | 0, _, _, _, _ => .error .fatal
+  | fuel + 1, o, op, fs, inline =>
+    match fs.zipIdx.mapM (fun (f, i) => buildFieldFold fuel o op f i) with
     | .error e => .error e
     | .ok fvs =>
       let fields := fvs.filterMap id
@@ -451,16 +474,16 @@ def getReflectFoldStruct : Nat → FoldOpts → List Field → Bool → Except R
       else .ok (.structFold fields (structFoldLen fs fields.length))
 
 /-- buildFieldFold; `none` = the field is ignored -/
-def buildFieldFold : Nat → FoldOpts → Field → Nat → Except Res (Option ReFold)
-  | 0, _, _, _ => .error .fatal
-  | fuel + 1, o, st, idx =>
+def buildFieldFold : Nat → FoldOpts → Open → Field → Nat → Except Res (Option ReFold)
+  | 0, _, _, _, _ => .error .fatal
+  | fuel + 1, o, op, st, idx =>
     if !st.exported then .ok none else               -- ignore non exported fields
     let (tagName, tagOpts) := parseTags st.tag
     if tagOpts.squash && tagOpts.omitEmpty then .error (.err .inlineAndOmitEmpty) else
     if tagOpts.omitF then .ok none else
-    if tagOpts.squash then (buildFieldFoldInline fuel o st idx).map some else
+    if tagOpts.squash then (buildFieldFoldInline fuel o op st idx).map some else
     let foldT := if tagOpts.omitEmpty then (baseType st.typ).2 else st.typ
-    match getReflectFold fuel o foldT with
+    match getReflectFold fuel o op foldT with
     | .error e => .error e
     | .ok valueVisitor =>
       let name := if tagName != "" then strBytes tagName else strBytes (toLower st.name)
@@ -471,42 +494,50 @@ def buildFieldFold : Nat → FoldOpts → Field → Nat → Except Res (Option R
         else .ok (some (.nonEmptyField name idx rs valueVisitor))
       else .ok (some (.field name idx valueVisitor))
 
-/-- buildFieldFoldInline (registry lookups are cache hits) -/
-def buildFieldFoldInline : Nat → FoldOpts → Field → Nat → Except Res ReFold
-  | 0, _, _, _ => .error .fatal
-  | fuel + 1, o, st, idx =>
+/-- buildFieldFoldInline.  Registry lookups are cache hits, except `findInline(bt)` for a
+type whose inline folder is under construction: the forwarding entry. -/
+def buildFieldFoldInline : Nat → FoldOpts → Open → Field → Nat → Except Res ReFold
+  | 0, _, _, _, _ => .error .fatal
+  | fuel + 1, o, op, st, idx =>
     let (n, bt) := baseType st.typ
-    match fieldFoldGenInline fuel o bt with
+    let name? := bt.whnf.menagerieName?
+    if (name?.map op.inl.contains).getD false then
+      .ok (.fieldInline idx (makeInlinePointerFold n (.forwardInline bt)))
+    else
+    let op := match name? with                       -- C.reg.setInline(bt, forwarding folder)
+      | some nm => { op with inl := nm :: op.inl }
+      | none => op
+    match fieldFoldGenInline fuel o op bt with
     | .error e => .error e
     | .ok baseVisitor => .ok (.fieldInline idx (makeInlinePointerFold n baseVisitor))
 
-/-- fieldFoldGenInline.  The `C.userReg[t]` branch of the Go function assigns to a local
-variable and falls through: it has no effect and is not mirrored. -/
-def fieldFoldGenInline : Nat → FoldOpts → GoType → Except Res ReFold
-  | 0, _, _ => .error .fatal
-  | fuel + 1, o, t =>
+/-- fieldFoldGenInline -/
+def fieldFoldGenInline : Nat → FoldOpts → Open → GoType → Except Res ReFold
+  | 0, _, _, _ => .error .fatal
+  | fuel + 1, o, op, t =>
     let t := t.whnf
-    if implementsFolder t || implementsPtrFolder t then
-      .ok (.embedd (.folder (t.menagerieName?.getD "?")) .folderIfc)
-    else
+    match userReg o t with                           -- C.userReg[t]
+    | some f => .ok (.embedd f)
+    | none =>
+    if implementsFolder t || implementsPtrFolder t then .ok (.embedd .folderIfc) else
     match t.under with
-    | .struct fs => getReflectFoldStruct fuel o fs true
-    | .map _ _ => getReflectFoldMapKeys fuel o t
-    | .iface => .ok (.embedd .iface .inlineIface)    -- getReflectFoldInlineInterface
+    | .struct fs => getReflectFoldStruct fuel o op fs true
+    | .map _ _ => getReflectFoldMapKeys fuel o op t
+    | .iface => .ok (.embedd .inlineIface)           -- getReflectFoldInlineInterface
     | _ => .error (.err .squashNeedObject)
 
 /-- getReflectFoldMap -/
-def getReflectFoldMap : Nat → FoldOpts → GoType → Except Res ReFold
-  | 0, _, _ => .error .fatal
-  | fuel + 1, o, t =>
-    match getReflectFoldMapKeys fuel o t with
+def getReflectFoldMap : Nat → FoldOpts → Open → GoType → Except Res ReFold
+  | 0, _, _, _ => .error .fatal
+  | fuel + 1, o, op, t =>
+    match getReflectFoldMapKeys fuel o op t with
     | .error e => .error e
     | .ok iterVisitor => .ok (.mapFold iterVisitor)
 
 /-- getReflectFoldMapKeys (fold_inline.go) with getMapInlineByPrimitiveElem -/
-def getReflectFoldMapKeys : Nat → FoldOpts → GoType → Except Res ReFold
-  | 0, _, _ => .error .fatal
-  | fuel + 1, o, t =>
+def getReflectFoldMapKeys : Nat → FoldOpts → Open → GoType → Except Res ReFold
+  | 0, _, _, _ => .error .fatal
+  | fuel + 1, o, op, t =>
     match t.key.under with
     | .string =>
       match t.elem with
@@ -515,16 +546,16 @@ def getReflectFoldMapKeys : Nat → FoldOpts → GoType → Except Res ReFold
         match primOf? e with
         | some p => .ok (.mapInline (some p))         -- _mapInlineMapping[t]
         | none =>
-          match getReflectFold fuel o e with
+          match getReflectFold fuel o op e with
           | .error err => .error err
           | .ok elemVisitor => .ok (.mapKeys elemVisitor)
     | _ => .error (.err .mapRequiresStringKey)
 
 /-- getReflectFoldSlice -/
-def getReflectFoldSlice : Nat → FoldOpts → GoType → Except Res ReFold
-  | 0, _, _ => .error .fatal
-  | fuel + 1, o, t =>
-    match getReflectFold fuel o t.elem with
+def getReflectFoldSlice : Nat → FoldOpts → Open → GoType → Except Res ReFold
+  | 0, _, _, _ => .error .fatal
+  | fuel + 1, o, op, t =>
+    match getReflectFold fuel o op t.elem with
     | .error e => .error e
     | .ok elemVisitor => .ok (.slice elemVisitor)
 end
@@ -545,6 +576,13 @@ def ptrWalk : Nat → RV → Walk
     | .nilPtr => .nil
     | .ptr x => ptrWalk n ⟨rv.t.elem, x⟩
     | _ => .bad
+
+/-- isNilValueFolder (fold_primitives.go): a nil pointer to a type implementing Folder on the
+value receiver -/
+def isNilValueFolder (rv : RV) : Bool :=
+  match rv.t.under, rv.v with
+  | .ptr e, .nilPtr => implementsFolder e
+  | _, _ => false
 
 /-- the receiver-dependent call `v.Interface().(Folder).Fold(visitor)` for a type whose
 method set contains Fold; none = Go panics (value method through a nil pointer) -/
@@ -596,10 +634,10 @@ def applyResolvers : Nat → List Resolver → RV → RRes
         match isZeroCall rv with
         | some empty => if empty then .drop else .keep rv
         | none => .panic
-      | .isZeroerPtr =>                              -- resolveIsZeroerPtr: v.Addr() / copy; the POINTER is returned
+      | .isZeroerPtr =>                              -- resolveIsZeroerPtr: IsZero through v.Addr() / a copy; the VALUE is returned
         let p : RV := ⟨.ptr rv.t, .ptr rv.v⟩
         match isZeroCall p with
-        | some empty => if empty then .drop else .keep p
+        | some empty => if empty then .drop else .keep rv
         | none => .panic
       | .interfaceLazy =>                            -- resolveInterfaceLazy
         match rv.v with
@@ -652,6 +690,7 @@ def foldInterfaceValue : Nat → FoldOpts → VisRef → GoVal → St → St × 
       | some f => runFast fuel o c f v s
       | none =>
       if implementsFolder t then                               -- v.(Folder)
+        if isNilValueFolder ⟨t, v⟩ then emit s c (.ev .null) else
         match folderEvents ⟨t, v⟩ with
         | some evs => seqM (fun s x => emit s c x) s evs
         | none => (s, .panic)
@@ -706,7 +745,7 @@ def runFast : Nat → FoldOpts → VisRef → Fast → GoVal → St → St × Re
 def foldAnyReflect : Nat → FoldOpts → VisRef → RV → St → St × Res
   | 0, _, _, _, s => (s, .fatal)
   | fuel + 1, o, c, rv, s =>
-    match getReflectFold compileFuel o rv.t with
+    match getReflectFold compileFuel o {} rv.t with
     | .error r => (s, r)
     | .ok f => run fuel o c f rv s
 
@@ -729,6 +768,7 @@ def run : Nat → FoldOpts → VisRef → ReFold → RV → St → St × Res
       | none => (s, .panic)
     | .folderIfc =>                                            -- reFoldFolderIfc
       if implementsFolder rv.t then
+        if isNilValueFolder rv then emit s c (.ev .null) else
         match folderEvents rv with
         | some evs => seqM (fun s x => emit s c x) s evs
         | none => (s, .panic)
@@ -843,15 +883,23 @@ def run : Nat → FoldOpts → VisRef → ReFold → RV → St → St × Res
         | .iface dt dv => foldAnyReflect fuel o c ⟨dt, dv⟩ s
         | _ => (s, .panic)
       | _ => foldAnyReflect fuel o c rv s
-    | .embedd id obj =>                                        -- embeddObjReFold
+    | .embedd obj =>                                           -- embeddObjReFold
       if isNilValue rv then (s, .ok) else
-      let s := s.setVs id { active := some c, depth := 0 }     -- vs.SetActive(C.visitor)
+      let id := s.nextVs                                       -- NewExpectObjVisitor(C.visitor)
+      let s := { s with nextVs := id + 1, vss := (id, { active := some c, depth := 0 }) :: s.vss }
       match run fuel o (.exp id) obj rv s with
       | (s, r) =>
-        let r := if r == .ok && (s.getVs id).depth != 0 then .err .expectedObjectClose else r
-        (s.setVs id { active := none, depth := 0 }, r)         -- vs.SetActive(nil)
+        (s, if r == .ok && (s.getVs id).depth != 0 then .err .expectedObjectClose else r)
+    | .forward t =>                                            -- `compiled(C, v)`
+      match getReflectFold compileFuel o {} t with
+      | .error r => (s, r)
+      | .ok f => run fuel o c f rv s
+    | .forwardInline t =>
+      match fieldFoldGenInline compileFuel o { inl := (t.whnf.menagerieName?).toList } t with
+      | .error r => (s, r)
+      | .ok f => run fuel o c f rv s
     | .inlineIface =>
-      match getReflectFold compileFuel o rv.t with
+      match getReflectFold compileFuel o {} rv.t with
       | .error r => (s, r)
       | .ok elemVisitor => run fuel o c elemVisitor rv s
 end
